@@ -427,6 +427,9 @@ def application_table(w):
                 tv = Enum(1, [w.named(w.val, "Boolean", [True])])
                 tv.name = "Value"
                 r = Run(w, follow=[w.asp.name], answers={"D": ok(w.named(w.val, "Boolean", [False]))}, tail_answers={"B2": ok(tv)})
+                # somebody besides the call holds the frame (a closure made in the body that left it another way than as the value):
+                # only then can anybody see what the frame binds afterwards — a frame nobody holds may be emptied
+                r.rc_count = 2
             try:
                 res = r.run(w.ap, [proc, list(args), caller])
             except (absint.Stuck, absint.Loop) as e:
